@@ -32,6 +32,28 @@ impl<K, V> HashMap<K, V> {
             forall|i: int| 0 <= i < r@.len() ==> *final(#[trigger] r@[i]) == final(self)@[old(self).iter_order()[i]],
     { unimplemented!() }
 
+    // R8 map-iteration schema for `for (k, v) in m.iter_mut()`: (key, exclusive value reference) pairs in the map's
+    // iteration order; same write-back reading as values_mut_collect.
+    #[verifier::external_body]
+    pub fn iter_mut_collect<'a>(&'a mut self) -> (r: Vec<(&'a K, &'a mut V)>)
+        ensures
+            order_of(old(self)@, old(self).iter_order()),
+            r@.len() == old(self).iter_order().len(),
+            forall|k: K| final(self)@.contains_key(k) <==> old(self)@.contains_key(k),
+            forall|i: int| 0 <= i < r@.len() ==> *(#[trigger] r@[i]).0 == old(self).iter_order()[i]
+                && *r@[i].1 == old(self)@[old(self).iter_order()[i]],
+            forall|i: int| 0 <= i < r@.len() ==> *final((#[trigger] r@[i]).1) == final(self)@[old(self).iter_order()[i]],
+    { unimplemented!() }
+
+    // R8 map-iteration schema for `m.values().copied().collect::<Vec<V>>()`
+    #[verifier::external_body]
+    pub fn values_copied_collect(&self) -> (r: Vec<V>)
+        ensures
+            order_of(self@, self.iter_order()),
+            r@.len() == self.iter_order().len(),
+            forall|i: int| 0 <= i < r@.len() ==> #[trigger] r@[i] == self@[self.iter_order()[i]],
+    { unimplemented!() }
+
     // std HashMap::get_mut
     #[verifier::external_body]
     pub fn get_mut(&mut self, k: &K) -> (r: Option<&mut V>)
@@ -139,4 +161,46 @@ pub open spec fn member_rr(mem: ConsumerGroupMember, p: int, m: int, i: int) -> 
 pub open spec fn assigned_rr(mm: Map<u32, ConsumerGroupMember>, ks: Seq<u32>, n: int) -> bool {
     &&& order_of(mm, ks)
     &&& forall|i: int| 0 <= i < ks.len() ==> member_rr(mm[#[trigger] ks[i]], n, ks.len() as int, i)
+}
+
+// ---- Topic level: stand-ins and the assumed contract of the (not extracted) group lookup ------------------
+// opaque stand-ins: a partition object behind its lock (only the NUMBER of partitions matters here) and the
+// sdk Identifier (numeric id or name)
+#[verifier::external_body]
+pub struct PartitionCell { _p: () }
+#[verifier::external_body]
+pub struct Identifier { _p: () }
+
+// which consumer group of topic t the identifier denotes, if any (resolution by id / by name is C06's subject)
+pub uninterp spec fn group_of(t: Topic, id: Identifier) -> Option<u32>;
+
+impl Topic {
+    // Topic::get_consumer_group (topics/consumer_groups.rs) is NOT extracted. In the source it returns
+    // `&RwLock<ConsumerGroup>` from `&self` and the caller takes the write lock; with the lock object dropped (R5) the
+    // same group is handed out as an exclusive reference (R6 promotion at the access path). Assumed: it yields the
+    // group the identifier denotes, what is written through the reference is what the map holds afterwards under the
+    // same key, nothing else of the topic changes; on Err nothing changes.
+    #[verifier::external_body]
+    pub fn get_consumer_group<'a>(&'a mut self, identifier: &Identifier) -> (r: Result<&'a mut ConsumerGroup, IggyError>)
+        ensures
+            final(self).partitions == old(self).partitions,
+            final(self).stream_id == old(self).stream_id && final(self).topic_id == old(self).topic_id,
+            match r {
+                Ok(g) => {
+                    &&& group_of(*old(self), *identifier) is Some
+                    &&& old(self).consumer_groups@.contains_key(group_of(*old(self), *identifier)->0)
+                    &&& *g == old(self).consumer_groups@[group_of(*old(self), *identifier)->0]
+                    &&& final(self).consumer_groups@ == old(self).consumer_groups@.insert(group_of(*old(self), *identifier)->0, *final(g))
+                },
+                Err(_) => group_of(*old(self), *identifier) is None && final(self).consumer_groups@ == old(self).consumer_groups@,
+            },
+    { unimplemented!() }
+}
+
+// every group of the topic satisfies P-style invariants (helper shapes for the Topic-level requires)
+pub open spec fn topic_groups_wf(t: Topic) -> bool {
+    forall|g: u32| t.consumer_groups@.contains_key(g) ==> group_wf(#[trigger] t.consumer_groups@[g]) && members_bound(t.consumer_groups@[g])
+}
+pub open spec fn topic_groups_inv(t: Topic) -> bool {
+    forall|g: u32| t.consumer_groups@.contains_key(g) ==> group_inv(#[trigger] t.consumer_groups@[g]) && members_bound(t.consumer_groups@[g])
 }
